@@ -61,6 +61,8 @@ def history(draw, labs_per_dim):
     """how the array came about (see core.build): a history must not change any answer"""
     mode = draw(st.sampled_from(["none", "none", "none", "warm", "slice", "relabel", "transposed", "fortran", "copyof"]))
     h = {"mode": mode}
+    if mode == "relabel":
+        h["init"] = draw(st.sampled_from(["sorted", "shuffled"]))      # the labels the array had when it was queried, before the in-place relabelling
     if mode == "slice":
         front, back = [], []
         for labs in labs_per_dim:
@@ -152,7 +154,7 @@ def absent_label(labs, kind, where, k=0):
     return int(v) if kind == "i" else float(v)
 
 
-RELATIONS = ["equal", "permuted", "subset", "superset", "overlapping", "disjoint", "interior"]
+RELATIONS = ["equal", "permuted", "subset", "superset", "overlapping", "disjoint", "interior", "inner-permuted"]
 
 
 @st.composite
@@ -186,6 +188,15 @@ def related_labels(draw, base, kind, relation=None, allow_empty=False, order=Non
     elif rel == "overlapping":
         keep = draw(st.lists(st.booleans(), min_size=len(base), max_size=len(base)))
         new = [b for b, k in zip(base, keep) if k] + fresh(draw(st.integers(1, 2)), base)
+    elif rel == "inner-permuted":
+        # the same labels with the first and the last one in place and the others in another order (needs four labels)
+        if len(base) >= 4:
+            mid = list(draw(st.permutations(base[1:-1])))
+            if mid == base[1:-1]:
+                mid = mid[::-1]
+            new = [base[0]] + mid + [base[-1]]
+        else:
+            new = list(base)[::-1]
     elif rel == "interior":
         # same length, same first and last label, other labels in between (where that is possible)
         if len(base) >= 3:
@@ -200,6 +211,8 @@ def related_labels(draw, base, kind, relation=None, allow_empty=False, order=Non
     else:
         raise ValueError(rel)
     o = order or draw(st.sampled_from(["asis", "inc", "dec", "shuf"]))
+    if rel in ("inner-permuted", "interior") and order is None and draw(st.booleans()):
+        o = "asis"
     if o == "inc":
         new = sorted(new)
     elif o == "dec":
